@@ -206,29 +206,31 @@ def run(chk):
             if not adv:
                 wit += " — the counter written is not Some(stored + 1): a failed or cancelled assertion can leave an altered record"
         chk.ob("R7 assertion writes only an advanced counter", "R7|get_assertion|record-written", ok, where(ga, a.call_bb), wit)
-    # R6
-    cons = None
-    for a in aws:
-        if a.call is not None and names.call_is(a.call, "Authenticator::check_user"):
-            cons = try_of_await(ga, a, du)
+    # R6: the error of the credential lookup leaves the ceremony only after consent, and nothing is done with a credential
+    # that was not found.  Idiom independent: "the lookup's error exit" = an Err/None return whose necessary conditions
+    # (in normal form) involve the lookup's result; "lookup succeeded" = the success edges of any test of it or of a value
+    # selected from it.
     look = [a for a in aws if a.call is not None and names.call_is(a.call, "CredentialStore::find_credentials")]
-    if chk.require("R6 lookup error held until consent", "R6|sites", cons is not None and len(look) == 1, where(ga), "consent `?` / lookup not found"):
-        from .common import forward_taint
-        tainted = forward_taint(ga, {look[0].payload}) | {look[0].payload}
-        ltries = [t for t in flow.try_sites(ga) if t["operand"] and t["operand"][0] in tainted and t is not cons and t["branch_bb"] != cons["branch_bb"]]
-        # first `?` applied to the lookup result
-        first = None
-        for t in ltries:
-            if all(t["branch_bb"] not in ga.reachable(o["continue_bb"], follow_yield_drop=False) for o in ltries if o is not t):
-                first = t
-        if chk.require("R6 lookup error held until consent", "R6|lookup-try", first, where(ga), "no `?` on the lookup result"):
-            after_consent = flow.cut_by_edges(ga, 0, [first["branch_bb"]], [(cons["switch_bb"], cons["continue_bb"])])
-            chk.ob("R6 lookup error held until consent", "R6|get_assertion|lookup-error-after-consent", after_consent, where(ga, first["branch_bb"]),
-                   "the lookup's `?` is %scut by the consent success edge" % ("" if after_consent else "NOT "))
-            eff = [bb for bb, t in ga.calls() if names.call_is(t, "CredentialStore::update_credential", "SignerMut::sign", "Authenticator::get_extensions")]
-            cut = flow.cut_by_edges(ga, 0, eff, [(first["switch_bb"], first["continue_bb"])])
-            chk.ob("R6 lookup error held until consent", "R6|get_assertion|lookup-error-before-effects", cut and len(eff) >= 3, where(ga, first["branch_bb"]),
-                   "update/extensions/sign are %scut by the success edge of the lookup's `?`" % ("" if cut else "NOT "))
+    cons_aw = [a for a in aws if a.call is not None and names.call_is(a.call, "Authenticator::check_user")]
+    if chk.require("R6 lookup error held until consent", "R6|sites", len(cons_aw) == 1 and len(look) == 1, where(ga), "consent await / lookup not found"):
+        is_look = flow.await_pred(look[0])
+        cons_ok, _cb = flow.success_edges(p, ga, flow.await_pred(cons_aw[0]), T, N=N)
+        look_ok, look_bad = flow.success_edges(p, ga, is_look, T, N=N)
+        exits = []
+        for s in flow.outcome_sites(ga):
+            if s["path"] != () or s["kind"] not in ("Err", "residual", "None"):
+                continue
+            cds = normal.conditions(N, p, ga, s["bb"], T) or []
+            if any(flow.term_contains(t, is_look) and not flow.term_contains(t, flow.await_pred(cons_aw[0])) for sb2, l, t in cds):
+                exits.append(s["bb"])
+        if chk.require("R6 lookup error held until consent", "R6|lookup-try", bool(exits) and bool(cons_ok) and bool(look_ok), where(ga), "no error exit that depends on the lookup result / no test of the consent or lookup result"):
+            after_consent = all(flow.cut_by_edges(ga, 0, [e], cons_ok) for e in exits)
+            chk.ob("R6 lookup error held until consent", "R6|get_assertion|lookup-error-after-consent", after_consent, where(ga, exits[0]),
+                   "the %d error exit(s) that depend on the lookup result are %scut by the consent success edge" % (len(exits), "" if after_consent else "NOT "))
+            eff = [bb for bb, t in ga.calls() if names.call_is(t, "CredentialStore::update_credential", "SignerMut::sign", "Signer::sign", "Authenticator::get_extensions")]
+            cut = flow.cut_by_edges(ga, 0, eff, look_ok)
+            chk.ob("R6 lookup error held until consent", "R6|get_assertion|lookup-error-before-effects", cut and len(eff) >= 3, where(ga, exits[0]),
+                   "update/extensions/sign are %scut by the success edges of the tests on the lookup result" % ("" if cut else "NOT "))
     chk.floor("R1", 4)
     chk.floor("R2", 4)
     chk.floor("R3", 6)
